@@ -134,9 +134,14 @@ def _registry():
         return dict(surface=g.u8(shp), markers=mk, Bc=g.bc(nd))
     reg('cwatershed', M + 'cwatershed', ws_gen, lambda f, a: f(a['surface'], a['markers'], a['Bc'], return_lines=True))
     reg('cwatershed_default', M + 'cwatershed', ws_gen, lambda f, a: f(a['surface'], a['markers']))
-    reg('hitmiss', M + 'hitmiss', lambda g: dict(input=g.u8(g.shape(2, 3), 1), Bc=g.ints((3, 3), 0, 2, np.uint8)),
+    def hm_template(g):
+        # mostly "don't care" so that the template matches often enough for wrong reads to show
+        t = np.array([2 if g.r.random() < 0.65 else g.r.randint(0, 1) for _ in range(9)], np.uint8).reshape(3, 3)
+        t[1, 1] = 1
+        return t
+    reg('hitmiss', M + 'hitmiss', lambda g: dict(input=g.u8(g.shape(2, 3), 1), Bc=hm_template(g)),
         lambda f, a: f(a['input'], a['Bc']))
-    reg('hitmiss_bool', M + 'hitmiss', lambda g: dict(input=g.b(g.shape(2, 3)), Bc=g.ints((3, 3), 0, 2, np.uint8)),
+    reg('hitmiss_bool', M + 'hitmiss', lambda g: dict(input=g.b(g.shape(2, 3)), Bc=hm_template(g)),
         lambda f, a: f(a['input'], a['Bc']))
 
     def ext_gen(g):
@@ -493,7 +498,7 @@ def _heap_runs(cases):
 # keys
 
 GROUP = {'locmax': 'locminmax', 'locmin': 'locminmax', 'regmax': 'locminmax', 'regmin': 'locminmax',
-         'shift_order1': 'interpolate', 'zoom_order1': 'interpolate', 'cwatershed_default': 'cwatershed',
+         'shift_order1': 'interpolate', 'zoom_order1': 'interpolate',
          'lbp_transform': 'lbp'}
 CANON_KEYS = {('locminmax', 'differs'): 'locminmax:layout',
               ('locminmax', 'heap'): 'locminmax:layout',     # the misplaced reads also reach memory outside the array
